@@ -50,6 +50,7 @@ fn main() {
         "replay-clvm" => p_clvm::replay(&rest),
         "drive-clvm" => p_clvm::drive(&rest),
         "drive-compile" => p_compile::drive(&rest),
+        "drive-shipped" => p_compile::drive_shipped(&rest),
         "replay-compile" => p_compile::replay(&rest),
         "gen-programs" => p_compile::gen_programs(&rest),
         "drive-entry" => p_entry::drive(&rest),
